@@ -12,8 +12,8 @@ import json, os, re
 from lib import kit
 
 KINDS = {  # kinds of cases MC_Sample must have visited (vacuity guard, see mc())
-    "C01": {"isrc", "ii", "iii", "ksrc", "kk", "kkk", "nsrc", "nn"},
-    "C02": {"isrc", "if", "ifi", "fsrc", "fi", "ffsrc", "ff"},
+    "C01": {"isrc", "ii", "iii", "via", "ksrc", "kk", "kkk", "nsrc", "nn"},
+    "C02": {"isrc", "if", "ifi", "via", "fsrc", "fi", "ffsrc", "ff"},
     "C15": {"tsrc", "top", "tcmp", "twid", "rsrc", "gsrc", "gop", "esrc", "eop"},
 }
 
@@ -122,14 +122,20 @@ def judge(ctx, trace, comp, jobs=8):
     return res
 
 
-def pipeline(ctx, prop, replay=None, profiles=("debug",)):
-    """Runs one property; returns (functional rejections, heap rejections)."""
+def pipeline(ctx, prop, replay=None, profiles=("debug", "release"), thin_release=True):
+    """Runs one property in the given build profiles of the harness (dev: debug assertions and overflow checks on;
+    release: both off, optimised); returns (functional rejections, heap rejections).  Every event carries o.debug of
+    the binary that produced it.  C01 / C02 demand the same result in both profiles (no conversion may panic or wrap
+    in either); C15's expected outcome depends on the profile and the judge takes it from the event."""
     # VERIF_SAMPLE_WORKSPACE: a scratch copy of the harness workspace whose path dependency points at a mutated
     # copy of dasp_sample (sharpness experiments, see notes/sample.md); default = the real harness on /repo
     ws = os.environ.get("VERIF_SAMPLE_WORKSPACE", kit.HARNESS)
     if ws != kit.HARNESS:
         ctx.notes.append("harness workspace overridden: " + ws)
+    if getattr(ctx, "light", 0) and not replay:
+        profiles = ("debug",)       # C07's quick tier only watches the heap counters (as kit.profile_runs)
     bins = [(p, ctx.cargo_build("hx_sample", release=(p == "release"), workspace=ws)) for p in profiles]
+    rnd_rel = None
     if replay:
         stim_files = [("replay", replay)]
     else:
@@ -146,11 +152,21 @@ def pipeline(ctx, prop, replay=None, profiles=("debug",)):
         rnd = os.path.join(ctx.work, "sample_%s_gen.ndjson" % prop)
         ctx.harness(bins[0][1], ["gen", str(ctx.seed), ctx.tier, rnd, prop.lower()])
         stim_files = [("tlc", stim), ("gen", rnd)]
+        if thin_release and ctx.tier == "thorough" and len(bins) > 1:
+            # thorough tier of C01 / C02 (2.5 M random events): the release build gets the enumerated stimuli in full
+            # and the quick-sized random set (the result may not depend on the profile; budget of the tier)
+            rnd_rel = os.path.join(ctx.work, "sample_%s_genq.ndjson" % prop)
+            ctx.harness(bins[0][1], ["gen", str(ctx.seed), "quick", rnd_rel, prop.lower()])
     rej, heap, seen = [], [], set()
     for name, sf in stim_files:
         for prof, hx in bins:
             tr = os.path.join(ctx.work, "sample_%s_%s_%s.ndjson" % (prop, name, prof))
-            rej += ctx.run_stimuli(hx, sf, tr, "sample")
+            f = sf
+            if thin_release and prof == "release" and name == "tlc" and ctx.tier == "quick":
+                f = kit.thin_stimuli(sf, 1500)      # same rule as kit.profile_runs: enumerated stimuli thinned, random ones in full
+            if prof == "release" and name == "gen" and rnd_rel:
+                f = rnd_rel
+            rej += ctx.run_stimuli(hx, f, tr, "sample")
             ctx.count_distinct(tr)
             res = judge(ctx, tr, "sample")
             if res["outside"] and not replay:
@@ -171,7 +187,10 @@ def pipeline(ctx, prop, replay=None, profiles=("debug",)):
 
 def c01(ctx, replay):
     ctx.assumptions += [
-        "132 ordered pairs of integer formats, each through Sample::to_sample, Sample::from_sample and conv::<src>::to_<dst>",
+        "132 ordered pairs of integer formats, each through five entry points: Sample::to_sample, Sample::from_sample, conv::<src>::to_<dst>, FromSample::from_sample_, ToSample::to_sample_; plus Sample::to_signed_sample (the pair format -> its Signed companion, identity for the signed formats) and Sample::add_amp (there, native addition, and back) with gains that keep the sum in range",
+        "the associated constants are judged: Sample::EQUILIBRIUM (and IDENTITY) of every format, types::{i24,u24,i48,u48}::{MIN,MAX}; X::EQUILIBRIUM converted to every other format is that format's EQUILIBRIUM",
+        "every result whose Rust type has a checked constructor (I24, U24, I48, U48) is accepted by it: T::new(result.inner()) == Some(result)",
+        "both build profiles of the harness are executed (release: quick tier random stimuli in full and enumerated ones thinned, thorough tier enumerated ones in full and the quick-sized random set); the expected result of a conversion is the same in both: a value, never a panic",
         "sources of 8 bits exhaustively; 16 bits strided (quick) / exhaustively (thorough); 24..64 bits: boundary-structured values from the model plus seeded uniform / exponent-uniform / sign-change / shift-boundary values",
         "two-step conversions (path independence, widen-then-narrow) for every (src, mid, dst) triple on sampled values",
     ]
@@ -184,6 +203,8 @@ def c02(ctx, replay):
         "float sources of float->int conversions lie in the documented domain [-1.0, 1.0); float<->float covers all finite values, infinities and NaN (any NaN accepted for NaN)",
         "integer sources as for C01; floats: boundary-structured values from the model (powers of two, 1 - 2^-k, target grid points and their neighbours, subnormals) plus seeded random bit patterns, grid points +-1 ulp, f64->f32 ties / subnormal results / overflow",
         "results are compared bit for bit as IEEE fields",
+        "entry points: the five conversion routes of C01, Sample::to_float_sample of every format, to_signed_sample / to_float_sample of the floats (identity), Sample::mul_amp of the integer formats (there, one float multiplication, and back) with gains whose product stays inside [-1, 1); EQUILIBRIUM / IDENTITY constants of all 14 formats and EQUILIBRIUM through every pair with a float end",
+        "both build profiles of the harness are executed (release: quick tier random stimuli in full and enumerated ones thinned, thorough tier enumerated ones in full and the quick-sized random set); the expected result is the same in both",
     ]
     rej, _ = pipeline(ctx, "C02", replay)
     ctx.add_rejections(rej)
@@ -195,7 +216,7 @@ def c15(ctx, replay):
         "operands are in range (constructed unchecked from in-range values); I11/U11 pairs strided (quick) / exhaustive (thorough); 20/24/48-bit types: boundary pairs from the model plus seeded random and near-overflow pairs",
         "negation is judged for the signed types that implement it (I11, I24, I48); I20 has no Neg impl; of U11's Neg (the statement speaks of signed negation only) just the range invariant is demanded: it panics or returns a value inside [MIN, MAX]",
     ]
-    rej, _ = pipeline(ctx, "C15", replay, profiles=("debug", "release"))
+    rej, _ = pipeline(ctx, "C15", replay, profiles=("debug", "release"), thin_release=False)
     ctx.add_rejections(rej)
 
 
